@@ -19,7 +19,8 @@ from engine import symx
 from . import common, monitors, trav, trav_plans, travcheck
 
 _cfg = {"max_chain": 3}
-OUTCOMES = ["none", "zero", "one", "raises"]
+OUTCOMES = ["none", "zero", "one", "raises", "raises_assertion", "raises_timeout"]
+EXC = {"raises": RuntimeError, "raises_assertion": AssertionError, "raises_timeout": TimeoutError}
 
 
 def _chain_factory():
@@ -45,8 +46,8 @@ def _chain_factory():
             def step(config: Any, tag: str = "") -> Any:
                 calls.append((nm, tag))
                 o = outcomes[nm]
-                if o == "raises":
-                    raise RuntimeError("step failed")
+                if o in EXC:
+                    raise EXC[o]("step failed")
                 return {"none": None, "zero": 0, "one": 1}[o]
 
             return step
@@ -61,7 +62,10 @@ def _chain_factory():
         cmd_parser.params_from_cmd = fake_params_from_cmd
         intertest_setup.load_addons_tools = lambda: None
         try:
-            rc = manu.Manu().run({"i2n.manu.params": []})
+            try:
+                rc = manu.Manu().run({"i2n.manu.params": []})
+            except (AssertionError, TimeoutError, RuntimeError) as e:
+                rc = f"escaped {type(e).__name__}"
         finally:
             cmd_parser.params_from_cmd, intertest_setup.load_addons_tools = saved_cmd, saved_load
             for nm in set(names):
@@ -71,7 +75,7 @@ def _chain_factory():
         want_calls = [(nm, f"0m{i}") for i, nm in enumerate(names)]
         if calls != want_calls:
             raise symx.Violation(f"chain {names}: steps called {calls}, expected {want_calls}", {"case": desc, "class": "chain calls"})
-        failed = any(outcomes[nm] in ("one", "raises") for nm in names)
+        failed = any(outcomes[nm] in ("one",) or outcomes[nm] in EXC for nm in names)
         if (rc == 1) != failed or rc not in (0, 1):
             raise symx.Violation(f"chain {names} with outcomes {outcomes} returned {rc}", {"case": desc, "class": "chain return code"})
         if failed:
@@ -103,8 +107,8 @@ def replay_chain(data: dict[str, Any]) -> tuple[bool, str]:
     def make(nm: str):
         def step(config: Any, tag: str = "") -> Any:
             calls.append((nm, tag))
-            if outcomes[nm] == "raises":
-                raise RuntimeError("step failed")
+            if outcomes[nm] in EXC:
+                raise EXC[outcomes[nm]]("step failed")
             return {"none": None, "zero": 0, "one": 1}[outcomes[nm]]
 
         return step
@@ -115,13 +119,16 @@ def replay_chain(data: dict[str, Any]) -> tuple[bool, str]:
     cmd_parser.params_from_cmd = lambda config: config.__setitem__("vms_params", Params({"setup": " ".join(names)}))
     intertest_setup.load_addons_tools = lambda: None
     try:
-        rc = manu.Manu().run({"i2n.manu.params": []})
+        try:
+            rc = manu.Manu().run({"i2n.manu.params": []})
+        except (AssertionError, TimeoutError, RuntimeError) as e:
+            rc = f"escaped {type(e).__name__}"
     finally:
         cmd_parser.params_from_cmd, intertest_setup.load_addons_tools = saved_cmd, saved_load
         for nm in set(names):
             delattr(intertest_setup, nm)
     want_calls = [(nm, f"0m{i}") for i, nm in enumerate(names)]
-    failed = any(outcomes[nm] in ("one", "raises") for nm in names)
+    failed = any(outcomes[nm] == "one" or outcomes[nm] in EXC for nm in names)
     bad = calls != want_calls or (rc == 1) != failed
     return bad, f"calls={calls} rc={rc} (expected calls {want_calls}, failed={failed})"
 
@@ -141,7 +148,7 @@ def tool_monitor(run: Any) -> list[Any]:
     if run.crash is not None:
         return [(f"C20 {sc.name} crash", f"traversal failed: {run.crash}", {})]
     selected = sorted(sc.vm_strs)
-    workers = sorted(run.graph.workers)
+    workers = sorted(getattr(sc, "compatible_workers", None) or run.graph.workers)
     starts = [e for e in run.trace if e["kind"] == "start"]
     seen: dict[tuple[str, str], int] = {}
     for e in starts:
@@ -177,6 +184,12 @@ def tool_monitor(run: Any) -> list[Any]:
     return out
 
 
+def _restricted(name: str, tool: str) -> trav.ToolScenario:
+    sc = trav.ToolScenario(name, tool, nets="net1 net5 net2", vm_strs={"vm2": "only Win7\n", "vm3": "only Ubuntu\n"})
+    sc.compatible_workers = ["net1", "net2"]
+    return sc
+
+
 def plans(tier: str) -> list[dict[str, Any]]:
     P = trav_plans.plan
     m = [tool_monitor]
@@ -186,10 +199,12 @@ def plans(tier: str) -> list[dict[str, Any]]:
         P("get on vm1 vm2, 2 workers", trav.ToolScenario("t-get", "get", nets="net1 net2", vm_strs=vm12, params={"get_state_images": "customize"}), m, K=1, statuses=["PASS", "FAIL"], max_nonpass=1, pool_fixed={"customize": ["own", "shared"]}),
         P("unset on vm1, 2 workers", trav.ToolScenario("t-unset", "unset", nets="net1 net2", vm_strs=vm1, params={"unset_state_images": "customize"}), m, K=1, statuses=["PASS"]),
         P("boot vm1 vm2, 1 worker", trav.ToolScenario("t-boot", "boot", nets="net1", vm_strs=vm12), m, K=1, statuses=["PASS", "FAIL"], max_nonpass=1),
+        P("boot vm2(Win7) vm3 on net1 net5 net2 (net5 excludes Win7)", _restricted("t-boot-net5", "boot"), m, K=1, statuses=["PASS"]),
     ]
     if tier == "thorough":
         for tool in ("check", "set", "push", "pop"):
             out.append(P(f"{tool} on vm1 vm2, 2 workers", trav.ToolScenario(f"t-{tool}", tool, nets="net1 net2", vm_strs=vm12, params={f"{tool}_state_images": "customize"}), m, K=1, statuses=["PASS", "FAIL"], max_nonpass=1, pool_fixed={"customize": ["own", "shared"]}))
+        out.append(P("shutdown vm2(Win7) vm3 on net1 net5 net2", _restricted("t-shutdown-net5", "shutdown"), m, K=1, statuses=["PASS"]))
         out.append(P("shutdown vm1, 2 workers", trav.ToolScenario("t-shutdown", "shutdown", nets="net1 net2", vm_strs=vm1), m, K=1, statuses=["PASS"]))
         out.append(P("get on vm1, worker with excluding restrictions", trav.ToolScenario("t-get-net5", "get", nets="net1 net5", vm_strs=vm1, params={"get_state_images": "customize"}), m, K=1, statuses=["PASS"], pool_fixed={"customize": ["own", "shared"]}))
     return out
